@@ -19,6 +19,33 @@ SEEDS = {
  "C05": dict(breaks="C05", summary="Hash::tree skips roots whose size is 0 (`if node.is_empty() { continue; }`)",
              needs="a root set containing a full root that covers zero bytes (length 3 with an empty third block; a batch of two empty blocks on a 4-block core): the signed root hash differs from the v10 scheme, only an independent verifier notices",
              detected_by=["C05.R1 (every root contributes to the tree hash)"], detection="MISSED by the rules as first written (updates were required to be in the loop, not to be unconditional per iteration); clause added"),
+ "C13": dict(breaks="C13", summary="append_batch sends DataUpgrade / Have before the periodic flush instead of after it (verify_and_apply_proof untouched)",
+             needs="a write fault in the bitfield / tree store or the oplog header write, on an append that actually flushes (1st, then every 4th): the append returns Err but both subscribers were already told DataUpgrade + Have",
+             detected_by=["C13.R4 (append_batch: nothing can fail after the DataUpgrade / Have event)"], detection="caught by the rules as first written (same shape as self-test c13_event_before_flush)"),
+ "C04": dict(breaks="C04", summary="verify_upgrade returns `q.i == q.nodes.len()` (all upgrade nodes consumed) instead of `q.extra.is_none()` (block root consumed)",
+             needs="replica at length L>0 without block i<L; writer grows; a proof for block i with ALTERED bytes plus a genuine signed upgrade L..N: the block root is exempted from the comparison with the stored node and the forged block is stored",
+             detected_by=["C04.R3 (verify_upgrade reports 'root consumed' only when the queue's extra node is gone)"], detection="MISSED by the rules as first written; clause added to C04.R3: the flag is `is_none(queue.extra)`, the queue is seeded with the block root exactly when there is one, shift hands the extra out only for its own index"),
+ "C03": dict(breaks="C03", summary="verify_upgrade starts the climb that merges old roots at changeset.roots[i] (first root that stops being a root) instead of the last root",
+             needs="a replica already upgraded to a length with two or more roots (3, 5, 6, 7, ..) and a writer that grew so that two or more trailing roots fold into one (3 -> 4): the honest upgrade proof is rejected ('Expected node 5, got node 6')",
+             detected_by=[], detection="NOT DETECTED. The two start indices differ only through flat-tree arithmetic; acceptance of honest proofs is in C03's declared 'not decided' remainder (DESIGN 5/C03). No structural clause that is a necessary condition (and not a frozen fragment of this line) was found"),
+ "C02": dict(breaks="C02", summary="Oplog::open records each entry's START offset in entry_ends (two lines swapped), so the restored entries_byte_length points at the start of the last unflushed entry",
+             needs="reopen with >= 1 unflushed entry, then the next mutating call's entry is written over the last unflushed entry, then a crash before that call's flush (a window of a few storage operations): an acknowledged append is lost, state is neither before nor after",
+             detected_by=["C02.R8 (the restored log length counts each accepted entry up to the end of its payload)"], detection="MISSED by the rules as first written (R8 only required a non-literal value); clause added: every contribution to entries_byte_length must derive, within the same loop iteration (back edges cut), from the remainder returned by that entry's decode"),
+ "C14": dict(breaks="C14", summary="infos_to_nodes caches blank nodes too, and MerkleTree::node answers optional reads from a cached blank node with 'missing'",
+             needs="feature cache with a node cache configured; a sparse replica with zero-filled tree slots; order: missing_nodes probe of a hole, then a proof filling it, then missing_nodes again: cache-on and cache-off cores report different counts and request different proofs",
+             detected_by=["C14.R2 (blank nodes are not cached)", "C14.R3 (a cache hit returns the cached node)"], detection="caught by the rules as first written"),
+ "C01": dict(breaks="C01", summary="FixedBitfield::from_data loops `while i < limit` instead of `<=`: the last u32 word of every reloaded bitfield page stays zero",
+             needs="a core with blocks at in-page indices 32736..32767 (>= 32737 blocks) whose bitfield was flushed, then close and reopen: has() false / get() None for 32 stored blocks per page",
+             detected_by=["C01.R7 / C06.R5 / C08.R2 (reader: a complete page yields all 1024 words)"], detection="MISSED by the rules as first written; an affine trip-count clause for the reader's word loop was added to the page-layout rule (shared by C01, C06, C08)"),
+ "C08": dict(breaks="C08", summary="same change as seeded C01 (independently produced): FixedBitfield::from_data `while i < limit`",
+             needs="40000 one-byte blocks on disk, flushed, reopened: first index reported missing is 32736 while contiguous_length says 40000",
+             detected_by=["C08.R2 (reader: a complete page yields all 1024 words)"], detection="MISSED by the rules as first written; caught by the trip-count clause added for seeded C01"),
+ "C06": dict(breaks="C06", summary="same change as seeded C07 (independently produced): header bits [h2, h2] in the 'only second slot valid' branch of Oplog::open",
+             needs="current header in slot 2 (odd number of flushes) and slot 1 failing validation (JS-valid file with an empty first slot, or a torn rewrite of slot 1): the three live entries are skipped, length 1 instead of 4",
+             detected_by=["C06.R7 (remembered header bits match the slot whose header is used)"], detection="MISSED by the rules as first written; caught by the clause added for seeded C07, shared into C06.R7"),
+ "C15": dict(breaks="C15", summary="SharedCore::append appends under a temporary guard and then builds the AppendOutcome from self.info(), i.e. under a second acquisition",
+             needs="another task's append winning the mutex between the two acquisitions (starved waiter hand-over after 500 us, or true parallelism): two appends report the same length; blocks are not at the index implied by the outcome",
+             detected_by=["C15.R1 (no nested SharedCore operation)"], detection="MISSED by the rules as first written (one textual lock() site, the second acquisition hidden in self.info()); clause added: a SharedCore method calls no other SharedCore operation", extra="--features shared-core"),
 }
 
 def main():
@@ -38,7 +65,8 @@ def main():
             "detected_by": m["detected_by"],
             "detection_history": m["detection"],
             "properties": [m["breaks"]],
-            "expect": {m["breaks"]: [re.match(r"(C\d+\.R[\d\-R]+)", x).group(1) for x in m["detected_by"]]},
+            "expect": ({m["breaks"]: [re.match(r"(C\d+\.R[\d\-R]+)", x).group(1) for x in m["detected_by"]]} if m["detected_by"] else {}),
+            "detected": bool(m["detected_by"]),
         }
         json.dump(meta, open(os.path.join(d, "meta.json"), "w"), indent=1)
         print(sid, meta["confirmed"])
